@@ -456,7 +456,7 @@ def run_prop_cases(prefix, header, tactic, cases, shard=300, timeout=1200, case_
     out, errors = {}, []
     for fpath in files:
         ok, txt = res[fpath]
-        for m in re.finditer(r"CASE (\(?-?\d+\)?)%Z (OK|BAD)", txt):
+        for m in re.finditer(r"CASE (\(?-?\d+\)?)(?:%Z)? (OK|BAD)", txt):
             out[int(m.group(1).strip("()"))] = (m.group(2) == "OK")
         if not ok:
             errors.append("%s: %s" % (os.path.basename(fpath), txt[-1200:]))
